@@ -82,6 +82,9 @@ def gen_cases(kind, n, salt):
     elif kind == "msetdup":
         for i in range(n):
             cases.append(("msetdup", i, None, {"strategy": "auto", "lists": "on"}))
+    elif kind in ("csv", "pyobj", "plist"):
+        for i in range(n):
+            cases.append((kind, i, None, r.choice(docs.ALL_OPTS)))
     elif kind == "huge":
         # total costs beyond 2^16 (and single sizes close to it) that are cheap to compute: huge leaves are only ever
         # paired with small leaves or with containers of another kind (constant-cost edits)
@@ -102,6 +105,24 @@ def build_pair(case, salt):
     if kind == "mset":
         r = rng("mset", salt, a)
         return docs.random_mset_tree(r), docs.random_mset_tree(r)
+    if kind == "csv":
+        r = rng("csv", salt, a)
+        return docs.random_csv_pair(r, opts)
+    if kind == "pyobj":
+        r = rng("pyobj", salt, a)
+        return docs.random_pyobj_pair(r, opts)
+    if kind == "plist":
+        r = rng("plist", salt, a)
+        from graphtage.plist import PLISTNode
+        def noneless(v):      # a plist cannot hold null
+            if isinstance(v, dict):
+                return {k: noneless(w) for k, w in v.items() if w is not None}
+            if isinstance(v, list):
+                return [noneless(w) for w in v if w is not None]
+            return "nil" if v is None else v
+        x = noneless(docs.random_doc(r, depth=2))
+        y = noneless(docs.mutate(x, r) if r.random() < 0.8 else docs.random_doc(r, depth=2))
+        return PLISTNode(docs.build(x, opts)), PLISTNode(docs.build(y, opts))
     if kind == "huge":
         r = rng("huge", salt, a)
         k = a % 4
@@ -163,7 +184,13 @@ def record_cases(cases, salt, procs=None):
     args = [(c, salt) for c in cases]
     if len(cases) < 40:
         _quiet_env_guarded()
-        return [_record_one(a) for a in args]
+        saved = sys.stderr
+        sys.stderr = open(os.devnull, "w")      # progress bars of the code under test
+        try:
+            return [_record_one(a) for a in args]
+        finally:
+            sys.stderr.close()
+            sys.stderr = saved
     ctx = mp.get_context("fork")
     with ctx.Pool(procs, initializer=_init_worker, maxtasksperchild=400) as pool:
         return pool.map(_record_one, args, chunksize=16)
